@@ -134,6 +134,9 @@ func exprD(v ssa.Value, d int, onpath map[ssa.Value]bool) string {
 		}
 		return x.Value.ExactString()
 	case *ssa.Parameter:
+		if s, ok := exprParamSubst[x]; ok {
+			return s
+		}
 		return x.Name()
 	case *ssa.FreeVar:
 		return "free:" + x.Name()
@@ -148,6 +151,9 @@ func exprD(v ssa.Value, d int, onpath map[ssa.Value]bool) string {
 		if fn := x.Parent(); fn != nil {
 			for _, p := range fn.Params {
 				if p.Name() == x.Comment {
+					if s, ok := exprParamSubst[p]; ok {
+						return s
+					}
 					return x.Comment
 				}
 			}
@@ -166,8 +172,14 @@ func exprD(v ssa.Value, d int, onpath map[ssa.Value]bool) string {
 	case *ssa.Field:
 		return r(x.X) + "." + fieldLeaf(structField(x.X.Type(), x.Field))
 	case *ssa.IndexAddr:
+		if s, ok := foldSliceIndex(x.X, x.Index, r); ok {
+			return s
+		}
 		return r(x.X) + "[" + r(x.Index) + "]"
 	case *ssa.Index:
+		if s, ok := foldSliceIndex(x.X, x.Index, r); ok {
+			return s
+		}
 		return r(x.X) + "[" + r(x.Index) + "]"
 	case *ssa.Lookup:
 		return r(x.X) + "[" + r(x.Index) + "]"
@@ -191,6 +203,23 @@ func exprD(v ssa.Value, d int, onpath map[ssa.Value]bool) string {
 		sort.Strings(parts)
 		return "φ(" + strings.Join(parts, "|") + ")"
 	case *ssa.Call:
+		if ret, params := pureExprHelper(x); ret != nil {
+			// a one-expression helper reads as its expression over the arguments
+			saved := exprParamSubst
+			next := map[*ssa.Parameter]string{}
+			for k, v := range saved {
+				next[k] = v
+			}
+			for i, p := range params {
+				if i < len(x.Call.Args) {
+					next[p] = r(x.Call.Args[i])
+				}
+			}
+			exprParamSubst = next
+			s := exprD(ret, d+1, map[ssa.Value]bool{})
+			exprParamSubst = saved
+			return s
+		}
 		var args []string
 		if x.Call.IsInvoke() {
 			args = append(args, r(x.Call.Value))
@@ -269,6 +298,11 @@ func Deps(v ssa.Value) map[string]bool {
 				out["const:"+y.Value.ExactString()] = true
 			}
 		case *ssa.Parameter:
+			if a := deparam(y); a != ssa.Value(y) {
+				seen[x] = false
+				visit(a, d+1)
+				break
+			}
 			out["param:"+y.Name()] = true
 		case *ssa.FreeVar:
 			out["free:"+y.Name()] = true
@@ -526,4 +560,54 @@ func unspill(rt *ssa.Return, idx int) ssa.Value {
 		return only
 	}
 	return v
+}
+
+// foldSliceIndex: x[a:][i] with constant a and i is x[a+i].
+func foldSliceIndex(base, index ssa.Value, r func(ssa.Value) string) (string, bool) {
+	sl, ok := base.(*ssa.Slice)
+	if !ok || sl.High != nil || sl.Max != nil || sl.Low == nil {
+		if p, isP := base.(*ssa.Parameter); isP {
+			if a, has := valueParamSubst[p]; has {
+				_ = a
+			}
+		}
+		return "", false
+	}
+	a, ok1 := intConst(sl.Low)
+	i, ok2 := intConst(index)
+	if !ok1 || !ok2 {
+		return "", false
+	}
+	return r(sl.X) + "[" + fmt.Sprint(a+i) + "]", true
+}
+
+// pureExprHelper: the call goes to an in-module function whose body is one block computing a single result from its
+// parameters with operators, conversions, indexing and len/cap only.
+func pureExprHelper(cl *ssa.Call) (ssa.Value, []*ssa.Parameter) {
+	f := cl.Call.StaticCallee()
+	if f == nil || !InModule(f) || len(f.Blocks) != 1 || f.Signature.Results().Len() != 1 || f.Signature.Recv() != nil && false {
+		return nil, nil
+	}
+	var ret ssa.Value
+	for _, in := range f.Blocks[0].Instrs {
+		switch t := in.(type) {
+		case *ssa.BinOp, *ssa.Convert, *ssa.ChangeType, *ssa.IndexAddr, *ssa.Index, *ssa.Slice, *ssa.FieldAddr, *ssa.Field, *ssa.DebugRef:
+		case *ssa.UnOp:
+			if t.Op == token.ARROW {
+				return nil, nil
+			}
+		case *ssa.Call:
+			if b, ok := t.Call.Value.(*ssa.Builtin); !ok || (b.Name() != "len" && b.Name() != "cap") {
+				return nil, nil
+			}
+		case *ssa.Return:
+			if len(t.Results) != 1 {
+				return nil, nil
+			}
+			ret = t.Results[0]
+		default:
+			return nil, nil
+		}
+	}
+	return ret, f.Params
 }
